@@ -55,13 +55,13 @@ def expected(schedule, match=match_ci, transports=("x",)):
                 res[k] = ("cancelled", now)
                 del pending[k]
         elif ev[0] == "T":
-            now2 = now + ev[1]
-            for k in sorted(pending):
-                wid, dl = pending[k]
-                if dl <= now2:
-                    res[k] = ("notfound", dl)
-                    del pending[k]
-            now = now2
+            now = now + ev[1]
+        # a deadline that has been reached is reported before the next event is looked at
+        for k in sorted(pending):
+            wid, dl = pending[k]
+            if dl <= now:
+                res[k] = ("notfound", dl)
+                del pending[k]
     return res, set(pending)
 
 
